@@ -17,6 +17,7 @@ FUNCTIONS = ['ParseCtx._convert_string', 'ParseCtx._convert_char_const', 'ParseC
              'NMFUError._generate_whitespace_marker + ProgramData.load_source/get_source_line']
 
 QUICK = {
+    'C18/casei_variants': [dict(env={}, timeout=120, label='every character 0..255 of a case-insensitive literal')],
     'C18/convert_string': [dict(env={'XH_N': 3}, timeout=300, label='STRING token, <=3 body chars (any code point; after \\x: < 128)')],
     'C18/convert_char_const': [dict(env={}, timeout=120, label='every CHAR_CONSTANT token (any code point)')],
     'C18/convert_binary_string': [dict(env={'XH_N': 3, 'XH_MAXHEX': 3}, timeout=400, label='STRING token, <=3 body chars')],
@@ -28,6 +29,7 @@ QUICK = {
     'C18/whitespace_marker': [dict(env={'XH_N': 4}, timeout=300, label='source <=4 chars (any code point), every non-blank position')],
 }
 THOROUGH = {
+    'C18/casei_variants': [dict(env={}, timeout=120, label='every character 0..255 of a case-insensitive literal')],
     'C18/convert_string': [dict(env={'XH_N': 4}, parts=16, timeout=900, label='STRING token, <=4 body chars (any code point; after \\x: < 128)')],
     'C18/convert_char_const': [dict(env={}, timeout=120, label='every CHAR_CONSTANT token (any code point)')],
     'C18/convert_binary_string': [dict(env={'XH_N': 4, 'XH_MAXHEX': 3}, parts=8, timeout=900, label='STRING token, <=4 body chars, at most 3 of them hex digits')],
